@@ -13,8 +13,8 @@ def add(pid, test, level, quick, thorough, rule, text, note, technique, design, 
 RAPID = "property-based testing (pgregory.net/rapid) against a sorted-map reference model"
 
 add("C01", "TestC01", "exploration",
-    dict(cases=40000, shards=8, extra=[dict(test="TestC01BigLeaves", shards=1), dict(test="TestC01Large", shards=9), dict(test="TestC01Regular", shards=4), dict(test="TestC01Sizes", shards=4)]),
-    dict(cases=600000, shards=16, timeout_s=3000, extra=[dict(test="TestC01BigLeaves", shards=1), dict(test="TestC01Large", shards=14), dict(test="TestC01Regular", shards=8, timeout_s=3000), dict(test="TestC01Sizes", shards=8, timeout_s=3000)]),
+    dict(cases=40000, shards=8, extra=[dict(test="TestC01BigLeaves", shards=1), dict(test="TestC01Large", shards=9), dict(test="TestC01Regular", shards=4), dict(test="TestC01Sizes", shards=4), dict(test="TestC01IndependentReaders", shards=1)]),
+    dict(cases=600000, shards=16, timeout_s=3000, extra=[dict(test="TestC01BigLeaves", shards=1), dict(test="TestC01Large", shards=14), dict(test="TestC01Regular", shards=8, timeout_s=3000), dict(test="TestC01Sizes", shards=8, timeout_s=3000), dict(test="TestC01IndependentReaders", shards=1, timeout_s=3000)]),
     "cases = one trie of 900000 keys with 300-byte values (270 MB of leaves: bit offsets beyond 2^31) + deterministic large shapes (70000-100000 keys: > 65535 nodes and leaves, 257 big nodes, short-table sizes 8-10, > 64 KiB of var-len values) + (key set from families K1..K7/Krand/Kshort) x (values nil|distinct|runs|aba|random|pairdup|const) x 14 encoders x 81 option structs x {fresh, Unmarshal(Marshal), proto round trip}; a case is non-trivial when it retains >= 2 keys and has a stored step, a key that is a prefix of another, or a byte >= 0x80; distinct = FNV-64 of the canonical case",
     "Generated-input search: every retained key of every generated trie is looked up with Get and GetID and compared with the model's retained-key rule computed on independently encoded values. Shapes are constructed so that 257-bit nodes, short nodes of each table size, long steps, prefix keys, the empty key and bytes >= 0x80 occur by design; the class histogram in the evidence shows how often. Not a proof: absence of counterexamples in the explored space.",
     "Trusted: the reference model and the independent value encodings in the harness. Not reached: > 10^5 keys, node ids near 2^31, 32-bit platforms.",
@@ -37,13 +37,13 @@ add("C03", "TestC03", "exploration",
     RAPID + " + exhaustive small-universe enumeration (+ native go fuzzing in thorough)", "DESIGN.md §4 C03")
 
 add("C09", "TestC09", "exploration",
-    dict(cases=40000, shards=8, extra=[dict(test="TestC09Exhaustive", shards=8), dict(test="TestC09Regular", shards=4)]), dict(cases=600000, shards=16, timeout_s=3000, extra=[dict(test="TestC09Exhaustive", shards=16, timeout_s=3000), dict(test="TestC09Regular", shards=8, timeout_s=3000)]),
+    dict(cases=40000, shards=8, extra=[dict(test="TestC09Exhaustive", shards=8), dict(test="TestC09Regular", shards=4), dict(test="TestC09IndependentReaders", shards=1)]), dict(cases=600000, shards=16, timeout_s=3000, extra=[dict(test="TestC09Exhaustive", shards=16, timeout_s=3000), dict(test="TestC09Regular", shards=8, timeout_s=3000), dict(test="TestC09IndependentReaders", shards=1, timeout_s=3000)]),
     "cases as C01 with values always supplied, all modes, fresh/reloaded; every retained key is a query; non-trivial = >= 3 retained keys on a trie with a 257-bit node, a short node or a prefix key",
     "Generated-input search: Search(k) for every retained key k must return (value of previous retained key | nil, own value, value of next retained key | nil).",
     "Trusted: reference model.", RAPID, "DESIGN.md §4 C09")
 
 add("C10", "TestC10", "exploration",
-    dict(cases=12000, shards=8, extra=[dict(test="TestC10Exhaustive", shards=8), dict(test="TestC10Regular", shards=4), dict(test="TestC10Sizes", shards=4)]), dict(cases=200000, shards=16, timeout_s=3000, extra=[dict(test="TestC10Exhaustive", shards=16, timeout_s=3000), dict(test="TestC10Regular", shards=8, timeout_s=3000), dict(test="TestC10Sizes", shards=8, timeout_s=3000)], fuzz=dict(target="FuzzC10", seconds=240)),
+    dict(cases=12000, shards=8, extra=[dict(test="TestC10Exhaustive", shards=8), dict(test="TestC10Regular", shards=4), dict(test="TestC10Sizes", shards=4), dict(test="TestC10IndependentReaders", shards=1)]), dict(cases=200000, shards=16, timeout_s=3000, extra=[dict(test="TestC10Exhaustive", shards=16, timeout_s=3000), dict(test="TestC10Regular", shards=8, timeout_s=3000), dict(test="TestC10Sizes", shards=8, timeout_s=3000), dict(test="TestC10IndependentReaders", shards=1, timeout_s=3000)], fuzz=dict(target="FuzzC10", seconds=240)),
     "cases as C01 (all modes, nil values, empty and single-key tries, fresh/reloaded) queried with Q(keys) plus 64 KiB strings of 0x00/0xff and a 70 000 byte string; non-trivial = a false positive was observed or an absent query shares a prefix with a retained key",
     "Generated-input search over relations that need no per-mode expectation: no panic; Get.found <=> GetID>=0 <=> Search.eq != nil; Get.found => RangeGet.found with the same value; every returned value was supplied at build time.",
     "Trusted: harness bookkeeping of supplied values. Non-termination is only detected through the test deadline (reported as inconclusive, exit 2).",
@@ -56,7 +56,7 @@ add("C13", "TestC13", "exploration",
     "Trusted: reference model for the retained-key set.", "metamorphic property-based testing (rapid)", "DESIGN.md §4 C13")
 
 add("C14", "TestC14", "exploration",
-    dict(cases=24000, shards=8), dict(cases=400000, shards=16, timeout_s=3000, extra=[dict(test="TestC14Huge", shards=1, timeout_s=3000)]),
+    dict(cases=24000, shards=8, extra=[dict(test="TestC14IndependentReaders", shards=1)]), dict(cases=400000, shards=16, timeout_s=3000, extra=[dict(test="TestC14Huge", shards=1, timeout_s=3000), dict(test="TestC14IndependentReaders", shards=1, timeout_s=3000)]),
     "thorough tier: one trie of 2^25+4096 keys with int64 values (bit offsets of the last leaves exceed 2^31; needs ~9 GB); keys as C01; int8/16/32/64 values over the full range (edge values and random), with duplicate runs; all modes; fresh/reloaded; queries = all input keys and Q(keys); non-trivial = a hit with a negative value on a trie where de-duplication dropped a key",
     "Differential: GetI8/16/32/64(q) must equal Get(q) in flag and number for every query; retained keys are additionally anchored to the model.",
     "Trusted: reference model.", "differential property-based testing (rapid)", "DESIGN.md §4 C14")
